@@ -162,9 +162,22 @@ func Run(stream []byte, splits []int, finish bool) Outcome {
 }
 
 func RunReader(rd *ChunkReader, finish bool, patience time.Duration) Outcome {
+	return RunReaderLagging(rd, finish, patience, nil)
+}
+
+// RunReaderLagging is RunReader with a consumer that takes nothing until
+// start is closed (or 400 ms have passed, so that a parser which cannot get
+// that far because its queue is full is released all the same).
+func RunReaderLagging(rd *ChunkReader, finish bool, patience time.Duration, start <-chan struct{}) Outcome {
 	t0 := time.Now()
 	p := ansi.NewParser(rd)
 	var out Outcome
+	if start != nil {
+		select {
+		case <-start:
+		case <-time.After(400 * time.Millisecond):
+		}
+	}
 	timer := time.NewTimer(patience)
 	defer timer.Stop()
 	for {
